@@ -189,6 +189,18 @@ Proof.
     pose proof (upd_ctx_fixed rc provs capo timeout freq total) as Hf. cbv zeta in Hf.
     split; [exact Erc|]. tauto.
   - exfalso. eapply Hne. reflexivity.
+  - apply h_mod_update_gen in H. destruct H as (rc & t & capo & Erc & _ & _ & ->).
+    eapply (I_cnt_put s _ c); try reflexivity; [|exact Hi]. right. exists rc.
+    pose proof (upd_thr_fixed rc t provs capo timeout freq total) as Hf. cbv zeta in Hf.
+    split; [exact Erc|]. tauto.
+  - apply h_mod_pause_spec in H. destruct H as (rc & Erc & _ & _ & _ & ->).
+    eapply (I_cnt_put s _ c); try reflexivity; [|exact Hi]. right. exists rc. auto.
+  - apply h_mod_start_spec in H. destruct H as (rc & Erc & _ & _ & ->).
+    destruct (reqs_started s c rc) as (E1 & E2 & E3).
+    eapply (I_cnt_put s _ c); [exact E1|exact E2|exact E3|apply ctxs_started| |exact Hi].
+    right. exists rc. auto.
+  - apply h_mod_kill_spec in H. destruct H as (rc & Erc & _ & _ & ->).
+    eapply (I_cnt_put s _ c); try reflexivity; [|exact Hi]. right. exists rc. auto.
 Qed.
 
 (* ------------------------------------------------------------------ *)
